@@ -49,13 +49,39 @@ def note_text(grid, parity):
     return N.render(sections)
 
 
+def lane_text(grid):
+    """
+    Heads and tails alternating in one lane (column), in two player sections: an unhittable head followed by a
+    hittable tail in the same lane, and the other way round; column 2 holds taps for reference.
+    """
+    rows_per_measure = 4 if grid != "fine" else 192
+    sections = []
+    for p in range(2):
+        rows = []
+        for r in range(8):
+            c0 = "2" if (r + p) % 2 == 0 else "3"
+            c1 = "4[7]" if (r + p) % 2 == 1 else "3"
+            rows.append(c0 + c1 + "1")
+        measures = [rows[0:4], rows[4:8]] if rows_per_measure == 4 else [rows + ["000"] * (192 - 8)]
+        sections.append(measures)
+    return N.render(sections)
+
+
+def offtick_text():
+    """384 rows per measure: notes on half ticks (between the ticks that carry the events of the fine grid)."""
+    rows = ["00"] * 384
+    for r in range(16):
+        rows[r] = "1M" if r % 2 else "21"
+    return N.render([[rows]])
+
+
 _TEXTS = {}
 
 
 def texts(grid):
     key = "fine" if grid == "fine" else "coarse"
     if key not in _TEXTS:
-        _TEXTS[key] = [note_text(key, 0), note_text(key, 1)]
+        _TEXTS[key] = [note_text(key, 0), note_text(key, 1), lane_text(key)] + ([offtick_text()] if key == "fine" else [])
     return _TEXTS[key]
 
 
